@@ -40,7 +40,7 @@ EXPLANATION = (
     "such deltas and a delta on a beta target survive; a renaming that passes through a delta of an alpha and a beta index "
     "loses the term), targets all-alpha, a clash with an existing alpha index refused. "
     "R15g: _has_valid_combination on 1728 three-tensor instances against brute force (answer, and on success a "
-    "complete consistent assignment left in `variant`). R15h: allowed_spin_blocks(expr, target) on model expressions "
+    "complete consistent assignment left in `variant`); more than 100 of them can only be solved by undoing a first choice. R15h: allowed_spin_blocks(expr, target) on model expressions "
     "(one term, several terms, chains of deltas, objects with a repeated index, the two expressions that need real backtracking) against brute force over "
     "all spin assignments; RegisteredIntermediate.allowed_spin_blocks = allowed_spin_blocks(definition on the default "
     "indices, default indices).")
@@ -817,7 +817,7 @@ def r15g(ctx):
     pairs = [(b1, b2) for b1 in blocks for b2 in blocks if b1 != b2]
     W = World()
     sx = Symex(ctx.model, inline=lambda q: True, what="_has_valid_combination", max_paths=8)
-    n = bad = 0
+    n = bad = n_back = 0
     for choice in itertools.product(pairs, repeat=3):
         box = {}
 
@@ -838,6 +838,18 @@ def r15g(ctx):
         want = any(all(len({sp for t, k in enumerate(sel) for sp, nm in zip(choice[t][k], supports[t]) if nm == name}) <= 1
                        for name in "xyz") for sel in itertools.product(range(2), repeat=3))
         variant = box["variant"]
+        # does the instance need backtracking? (taking the first compatible block of every tensor without ever undoing a
+        # choice runs into a dead end although a consistent assignment exists)
+        spin, greedy = {}, True
+        for t in range(3):
+            for k in range(2):
+                if all(spin.get(nm, sp) == sp for sp, nm in zip(choice[t][k], supports[t])):
+                    spin.update({nm: sp for sp, nm in zip(choice[t][k], supports[t])})
+                    break
+            else:
+                greedy = False
+                break
+        n_back += want and not greedy
         good = len(outs) == 1 and outs[0].kind == "return" and isinstance(outs[0].value, bool) and outs[0].value == want
         if good and want:
             good = not (variant["a"] & variant["b"]) and len(variant["a"] | variant["b"]) == 3
@@ -851,6 +863,7 @@ def r15g(ctx):
         else:
             ctx.ok(rule, fn, f"blocks {choice}: {want}", key=f"search {choice}")
     ctx.floor(rule, "search instances", n, 1000)
+    ctx.floor(rule, "search instances in which a first choice has to be undone", n_back, 100)
 
 
 # ---------------------------------------------------------------------------- R15h
